@@ -572,9 +572,77 @@ func ruleHeaderPublication(c *Ctx, rule string) {
 		if fn == nil {
 			continue
 		}
-		for _, cl := range closesOfField(fn, sig) {
+		// the closes the function performs itself, in its single-use helpers, and in helpers it shares with the other
+		// function (`settleHeadersLocked()` called by both); `at` is where the function does it (the close, or its call of
+		// the shared helper)
+		type closeAt struct {
+			cl *ssa.Call
+			at ssa.Instruction
+		}
+		var closes []closeAt
+		var visit func(g *ssa.Function, site ssa.Instruction, depth int)
+		visit = func(g *ssa.Function, site ssa.Instruction, depth int) {
+			allInstrs(g, func(in ssa.Instruction) {
+				at := site
+				if at == nil {
+					at = in
+				}
+				call, ok := in.(*ssa.Call)
+				if !ok {
+					return
+				}
+				if calleeName(call) == "builtin.close" {
+					if f, _, ok := loadedField(call.Call.Args[0]); ok && f == sig {
+						closes = append(closes, closeAt{call, at})
+					}
+					return
+				}
+				if h := helperCallee(call); h != nil && h.Blocks != nil && inlinedCallee(call) == nil && depth < 3 {
+					visit(h, at, depth+1)
+				}
+			})
+		}
+		visit(fn, nil, 0)
+		if fn == a.ClientFinish {
+			// the finishing function settles the headers: the done signal is closed only after the headers signal was closed,
+			// here or earlier (the got-headers flag tested true) — Header() on a finished RPC answers from the headers signal
+			if done, okD := c.doneSignalField(); okD {
+				for _, cd := range closesOfField(fn, done) {
+					isSettle := func(in ssa.Instruction) bool {
+						for _, ca := range closes {
+							if ca.at == in {
+								return true
+							}
+						}
+						return false
+					}
+					flagTrue := func(pred, succ *ssa.BasicBlock) bool {
+						ef, has := edgeFact(pred, succ)
+						if !has {
+							return false
+						}
+						nf := normFact(ef)
+						if fr, _, isF := loadedField(nf.Cond); isF && nf.True {
+							for _, ca := range closes {
+								if fl, okF := c.findOnceFlag(ca.cl, a.CS); okF && fl == fr {
+									return true
+								}
+							}
+						}
+						return false
+					}
+					esc := pathAvoidingE(regionRoot(fn), nil, func(in ssa.Instruction) bool { return in == ssa.Instruction(cd) }, isSettle, flagTrue)
+					c.check(esc == nil && len(closes) > 0, rule, w.Short(fn)+": settles the headers before the done signal", w.At(cd), "every path to close("+done.Field+") closes "+sig.Field+" or found it closed", "the finishing function can close the done signal without the headers signal ever being closed: Header() on an RPC that ended without a headers frame (no headers set and no message, a refusal, a cancellation) does not get the settled (empty) headers — it blocks, or reports the end of the RPC as an error of a successful call")
+				}
+			}
+		}
+		for _, ca := range closes {
+			cl, at := ca.cl, ca.at
 			nClose++
 			key := "close(" + sig.Field + ") in " + w.Short(fn)
+			if regionRoot(cl.Parent()) != regionRoot(fn) {
+				key = "close(" + sig.Field + ") in " + w.Short(cl.Parent()) + " for " + w.Short(fn)
+			}
 			locks := perStreamLocks(lf.MustAt(cl), a.CS)
 			if len(locks) == 0 {
 				c.fail(rule, key+": under the metadata mutex", w.At(cl), "the headers signal is closed with no client-stream mutex held: double close (panic) when headers race with finish")
@@ -592,7 +660,7 @@ func ruleHeaderPublication(c *Ctx, rule string) {
 				// frame: it settles the headers as empty when data arrives first (the protocol lets a server omit the frame)
 				related := false
 				for _, st := range sts {
-					if reaches(st, cl) || reaches(cl, st) || dominates(st, cl) {
+					if reaches(st, at) || reaches(at, st) || dominates(st, at) {
 						related = true
 					}
 				}
@@ -604,13 +672,13 @@ func ruleHeaderPublication(c *Ctx, rule string) {
 				nPub++
 				c.check(len(sts) >= 1, rule, key+": headers stored", w.At(cl), fmt.Sprintf("%d store(s)", len(sts)), "the response_headers case never stores the headers")
 				for _, st := range sts {
-					c.check(dominates(st, cl) && !reaches(cl, st), rule, key+": headers stored before the signal", w.At(st), "store dominates close", "headers are stored after (or not on every path before) the signal: Header() returns nil/stale metadata")
+					c.check(dominates(st, at) && !reaches(at, st), rule, key+": headers stored before the signal", w.At(st), "store dominates close", "headers are stored after (or not on every path before) the signal: Header() returns nil/stale metadata")
 					// value = fromProto(frame.ResponseHeaders)
 					d := desc(st.Val)
 					c.check(w.isConvOfField(st.Val, "fromProto", "ResponseHeaders"), rule, key+": stores the frame's headers", w.At(st), d, "the stored headers are "+d+", expected fromProto(frame.ResponseHeaders)")
 				}
 				for _, ts := range c.targetStores(fn, w.Roles().HeadersTargets) {
-					c.check(reaches(ts, cl) && !reaches(cl, ts), rule, key+": grpc.Header targets filled before the signal", w.At(ts), "target store precedes close", "a grpc.Header target is written after the signal")
+					c.check(reaches(ts, at) && !reaches(at, ts), rule, key+": grpc.Header targets filled before the signal", w.At(ts), "target store precedes close", "a grpc.Header target is written after the signal")
 				}
 				c.floor(rule, len(c.targetStores(fn, w.Roles().HeadersTargets)), 1, "grpc.Header target stores")
 			}
@@ -677,16 +745,36 @@ func ruleStatusFlow(c *Ctx, rule string) {
 				return
 			}
 			finCall = call
-			arg := call.Common().Args[1]
-			if u, ok := arg.(*ssa.UnOp); ok && u.Op == token.MUL {
-				switch b := u.X.(type) {
-				case *ssa.Alloc:
-					errCell = b
-				case *ssa.FreeVar:
-					if al, ok := freeVarBinding(b).(*ssa.Alloc); ok {
-						errCell = al
+			// the variable itself, or what a private helper makes of it (`st.finishStream(handlerOutcome(err, panicked))`:
+			// the variable, or a status)
+			var cell *ssa.Alloc
+			okLeaves := true
+			for _, vc := range valueCases(call.Common().Args[1], 0) {
+				lv := stripConv(vc.Val)
+				if p, isP := lv.(*ssa.Parameter); isP {
+					if b := crossParameter(p); b != nil {
+						lv = stripConv(b)
 					}
 				}
+				if u, ok := lv.(*ssa.UnOp); ok && u.Op == token.MUL {
+					switch b := u.X.(type) {
+					case *ssa.Alloc:
+						cell = b
+						continue
+					case *ssa.FreeVar:
+						if al, ok := freeVarBinding(b).(*ssa.Alloc); ok {
+							cell = al
+							continue
+						}
+					}
+				}
+				if lc, isCall := lv.(*ssa.Call); isCall && strings.HasPrefix(calleeName(lc), "google.golang.org/grpc/status.") {
+					continue
+				}
+				okLeaves = false
+			}
+			if okLeaves && cell != nil {
+				errCell = cell
 			}
 		})
 	}
@@ -1244,16 +1332,26 @@ func (c *Ctx) checkConverter(rule string, fn *ssa.Function) {
 	valDesc := desc(mu.Value)
 	if nx != nil {
 		v2 := extractOf2(nx, 2)
-		switch x := stripConv(mu.Value).(type) {
+		stored, elem := mu.Value, v2
+		// out[k] = conv(v) with conv a function literal handed to a shared loop helper: what the literal makes of its
+		// parameter
+		if call, isCall := stripConv(mu.Value).(*ssa.Call); isCall && staticCallee(call) == nil && !call.Call.IsInvoke() && len(call.Call.Args) == 1 && call.Call.Args[0] == v2 {
+			if lit := funcValueTarget(origin(call.Call.Value)); lit != nil && len(lit.Params) == 1 && len(lit.FreeVars) == 0 {
+				if rets := returnsOf(lit); len(rets) == 1 && len(rets[0].Results) == 1 {
+					stored, elem = rets[0].Results[0], lit.Params[0]
+				}
+			}
+		}
+		switch x := stripConv(stored).(type) {
 		case *ssa.Alloc: // &Metadata_Values{Val: v}
 			for _, sv := range storesInto(x) {
-				if sv == v2 {
+				if sv == elem {
 					okVal = true
 				}
 			}
 		default:
 			// v.Val
-			if r, ch := fieldChain(mu.Value); len(ch) == 1 && r == v2 {
+			if r, ch := fieldChain(stored); len(ch) == 1 && r == elem {
 				okVal = true
 			}
 		}
